@@ -84,10 +84,14 @@ so these are the one-sided limits of the returned fields (`noh_conserves`). -/
 theorem noh_jump (p : Noh.P) (t : ℝ) (hγ : 1 < p.gamma) (hu : p.u0 < 0) (ht : 0 < t) :
     ShockJump (nohInner p) (nohOuter p) (nohShock p) (nohSpeed p) t := by
   refine ⟨noh_shock_hasDerivAt p t, ?_⟩
+  have hx : nohShock p t ≠ 0 := by
+    have h1 : 0 < |p.u0| := abs_pos.mpr hu.ne
+    have h2 : 0 < p.gamma - 1 := by linarith
+    unfold nohShock; positivity
   -- the generated leaves enter only through their documented closed forms (Lemmas/Bridge/Noh.lean)
   simp only [RankineHugoniot, State.massFlux, State.momFlux, State.energyFlux, nohInner, nohOuter, stateAt,
     EPV.Bridge.noh_L0_density, EPV.Bridge.noh_L0_velocity, EPV.Bridge.noh_L0_pressure, EPV.Bridge.noh_L0_sie,
-    EPV.Bridge.noh_L1_density, EPV.Bridge.noh_L1_velocity, EPV.Bridge.noh_L1_pressure, EPV.Bridge.noh_L1_sie]
+    EPV.Bridge.noh_L1_density p _ t hx, EPV.Bridge.noh_L1_velocity, EPV.Bridge.noh_L1_pressure, EPV.Bridge.noh_L1_sie]
   obtain ⟨g, k, ρ0, u0⟩ := p
   simp only at hγ hu
   obtain ⟨v, rfl⟩ : ∃ v, u0 = -v := ⟨-u0, by ring⟩
